@@ -161,13 +161,20 @@ impl<R> Archive<R> {
         let archive_chunks: Vec<ChunkDescriptor> = dictionary
             .chunk_descriptors
             .into_iter()
-            .map(|dict| ChunkDescriptor {
-                checksum: dict.checksum.into(),
-                archive_size: dict.archive_size as usize,
-                archive_offset: chunk_data_offset + dict.archive_offset,
-                source_size: dict.source_size,
+            .map(|dict| {
+                // The chunk must be addressable, neither its absolute offset nor its end may overflow.
+                let archive_offset = match chunk_data_offset.checked_add(dict.archive_offset) {
+                    Some(offset) if offset.checked_add(dict.archive_size as u64).is_some() => offset,
+                    _ => return Err(ArchiveError::invalid_archive("invalid chunk offset")),
+                };
+                Ok(ChunkDescriptor {
+                    checksum: dict.checksum.into(),
+                    archive_size: dict.archive_size as usize,
+                    archive_offset,
+                    source_size: dict.source_size,
+                })
             })
-            .collect();
+            .collect::<Result<_, ArchiveError<R::Error>>>()?;
         let chunker_params = dictionary
             .chunker_params
             .ok_or_else(|| ArchiveError::invalid_archive("invalid chunker parameters"))?;
